@@ -142,7 +142,12 @@ func evalC01(c *Ctx, cs *Case) {
 					o = OutputMD(doc, bopts...)
 				case 1:
 					entry = "OutputFromMarkdown+NoIter"
-					o = OutputMD(doc, append(append([]gtree.Option{}, bopts...), gtree.WithNoUseIterOfSimpleOutput())...)
+					// a *strings.Builder as writer (the other paths use a recorder and a *bytes.Buffer)
+					var sbw strings.Builder
+					o = Guard(func() error {
+						return gtree.OutputFromMarkdown(&sbw, strings.NewReader(doc), append(append([]gtree.Option{}, bopts...), gtree.WithNoUseIterOfSimpleOutput())...)
+					})
+					o.Out = []byte(sbw.String())
 				case 2:
 					entry = "Output(alias)"
 					var buf bytes.Buffer
